@@ -290,7 +290,7 @@ func TestZsimC07(t *testing.T) {
 		Property: "C07", Name: "mr",
 		Run:     c07Run,
 		Horizon: 10 * time.Minute,
-		Rule:    "scenario drawn from the ops/fault tapes (entry point, workers, items, per-item mapper script, reducer mode, generator, context); non-trivial = at least two mapper callbacks overlapped or a cancel/panic/context fault fired; distinct = distinct event-log fingerprint (operations + scheduling decisions)",
+		Rule:    "scenario drawn from the ops/fault tapes (entry point, workers, items, per-item mapper script, reducer mode, generator, context, panics with a string or a nil value); non-trivial = at least two mapper callbacks overlapped or a cancel/panic/context fault fired; distinct = distinct event-log fingerprint (operations + scheduling decisions)",
 		Real:    []string{"lib/mr (all entry points, instrumented)", "lib/errorx.AtomicError", "context"},
 		Stub:    []string{"generator/mapper/reducer callbacks (scripts)", "context cancellation instants"},
 	})
